@@ -22,27 +22,30 @@ SHIFT = (2.5, 0.5, 0.75)
 def boundary_cases(strength):
     cases = [
         # (name, trial mesh, trial space, test mesh (None = same grid), test space, operator, k, near-field mode)
-        ("sl/tet/P1", "tet", ("P", 1, {}), None, ("P", 1, {}), "sl", None, "evaluate"),
+        ("sl/islands3/P1b", "islands3", ("P", 1, {"include_boundary_dofs": True}), None,
+         ("P", 1, {"include_boundary_dofs": True}), "sl", None, "evaluate"),
         ("dl/tet/DP0seg0", "tet", ("DP", 0, {"segments": [0]}), None, ("DP", 0, {"segments": [0]}), "dl", 1.0 + 0.5j,
          "sparse"),
-        ("dl/strip2/DP0swapped", "strip2", ("DP", 0, {"swapped_normals": [1]}), None, ("DP", 0, {"swapped_normals": [1]}),
-         "dl", None, "evaluate"),
-        ("adl/strip3/P1b", "strip3", ("P", 1, {"include_boundary_dofs": True}), None,
-         ("P", 1, {"include_boundary_dofs": True}), "adl", 0.75, "evaluate"),
-        ("hyp/tet/P1", "tet", ("P", 1, {}), None, ("P", 1, {}), "hyp", 1.25 + 0.25j, "evaluate"),
-        ("efield/strip3/RWGb", "strip3", ("RWG", 0, {"include_boundary_dofs": True}), None,
+        ("dl/islands3/DP0swapped", "islands3", ("DP", 0, {"swapped_normals": [1]}), None,
+         ("DP", 0, {"swapped_normals": [1]}), "dl", None, "evaluate"),
+        ("hyp/islands3/P1b", "islands3", ("P", 1, {"include_boundary_dofs": True}), None,
+         ("P", 1, {"include_boundary_dofs": True}), "hyp", 1.25 + 0.25j, "evaluate"),
+        ("efield/islands3/RWGb", "islands3", ("RWG", 0, {"include_boundary_dofs": True}), None,
          ("SNC", 0, {"include_boundary_dofs": True}), "efield", 1.0 + 0.5j, "evaluate"),
-        ("mfield/tet/RWG", "tet", ("RWG", 0, {}), None, ("SNC", 0, {}), "mfield", 0.75, "sparse"),
         # supports that are not a prefix of the element list
         ("sl/tet/DP0seg1", "tet", ("DP", 0, {"segments": [1]}), None, ("DP", 0, {"segments": [1]}), "sl", None,
          "evaluate"),
-        ("efield/tet/RWGseg1", "tet", ("RWG", 0, {"segments": [1], "include_boundary_dofs": True}), None,
-         ("SNC", 0, {"segments": [1], "include_boundary_dofs": True}), "efield", 1.0, "evaluate"),
+        ("efield/islands3/RWGseg1", "islands3", ("RWG", 0, {"segments": [1], "include_boundary_dofs": True}), None,
+         ("SNC", 0, {"include_boundary_dofs": True}), "efield", 1.0, "evaluate"),
         # two different grids
         ("sl/strip2->tet", "strip2", ("DP", 0, {}), "tet", ("P", 1, {}), "sl", None, "evaluate"),
     ]
     if strength == "thorough":
         cases += [
+            ("adl/islands3/DP1", "islands3", ("DP", 1, {"swapped_normals": [0]}), None,
+             ("DP", 1, {"swapped_normals": [0]}), "adl", 0.75, "evaluate"),
+            ("mfield/islands3/RWGb", "islands3", ("RWG", 0, {"include_boundary_dofs": True}), None,
+             ("SNC", 0, {"include_boundary_dofs": True}), "mfield", 0.75, "sparse"),
             ("hyp/strip3/P1b/lap", "strip3", ("P", 1, {"include_boundary_dofs": True}), None,
              ("P", 1, {"include_boundary_dofs": True}), "hyp", None, "sparse"),
             ("hyp/fan4/P1/mod", "fan4", ("P", 1, {}), None, ("P", 1, {}), "hyp_mod", 0.5, "evaluate"),
